@@ -351,7 +351,8 @@ def run(ck):
     coq_ok = ck.coq_stage(GROUP, theorems=["C16_reparse", "C16_idempotent", "C16_wf_roundtrip", "C16_parse_wf",
                                            "C16_quote_string", "C16_quote_ident", "C16_tables_ok",
                                            "C16_old_keyword_refuted", "C16_old_minus_refuted",
-                                           "C16_text_lex", "C16_reparse_text", "C16_parse_eok", "C16_statement_text"])
+                                           "C16_text_lex", "C16_reparse_text", "C16_parse_eok", "C16_statement_text",
+                                           "C16_tbl2_ok", "C16_reparse2", "C16_roundtrip2"])
 
     ok, binp = vf.go_test_build(ck.work, "internal/sqlparse", {"internal/sqlparse/zz_verif_c16_test.go":
                                 os.path.join(vf.HARNESS, "C16", "c16_test.go")}, "c16.test")
